@@ -76,19 +76,28 @@ func verifJob(id pipeline.SourceID, name string, inode uint64) *Job {
 	return &Job{sourceID: id, filename: name, inode: inodeID(inode), mu: &sync.Mutex{}}
 }
 
-// C07.H1: the save protocol: temp file, full write, fsync, then rename; a failed step never replaces the good file.
+// C07.H1: the save protocol: temp file, full write, fsync, then rename; a failed step never replaces
+// the good file; and a save that follows a failed one still writes exactly the current table.
 func VerifH_C07_saveProtocol() {
 	verifTrace, verifFaults = nil, true
 	db := newOffsetDB("offsets.yaml", "offsets.tmp")
 	job := verifJob(1, "f", 10)
 	job.offsets.Set("s", 5)
-	jobs := map[pipeline.SourceID]*Job{1: job}
-	db.save(jobs, &sync.RWMutex{})
+	job2 := verifJob(2, "g", 20)
+	job2.offsets.Set("t", 7)
+	jobs := map[pipeline.SourceID]*Job{1: job, 2: job2}
+	saves := 1 + vf.Choose("saves", vf.Param("SAVES", 2))
+	for i := 0; i < saves; i++ {
+		db.save(jobs, &sync.RWMutex{})
+		verifTrace = append(verifTrace, verifOp{op: "end-of-save"})
+	}
 
 	opened, written, synced := "", false, false
 	var payload []byte
 	for _, t := range verifTrace {
 		switch t.op {
+		case "end-of-save":
+			opened, written, synced, payload = "", false, false, nil
 		case "open":
 			if t.ok {
 				opened = t.name
@@ -109,6 +118,14 @@ func VerifH_C07_saveProtocol() {
 			vf.Assert(written, "rename-only-after-successful-write")
 			vf.Assert(synced, "rename-only-after-successful-fsync")
 			vf.Assert(len(payload) > 0, "renamed-snapshot-is-complete")
+			if t.ok && written {
+				loaded, err := db.parse(string(payload))
+				vf.Assert(err == nil, "renamed-snapshot-loads")
+				if err == nil {
+					ok := len(loaded) == 2 && loaded[1] != nil && loaded[2] != nil && loaded[1].streams["s"] == 5 && loaded[2].streams["t"] == 7
+					vf.Assert(ok, "renamed-snapshot-is-the-current-table")
+				}
+			}
 		}
 	}
 }
@@ -255,5 +272,51 @@ func VerifH_C07_snapshotNotAhead() {
 			}
 			vf.Reach("snapshot-renamed")
 		}
+	}
+}
+
+// C07.H5: persistence_mode=sync: every commit rewrites the offsets file, and each rewritten file is a
+// complete snapshot of all sources (not only of the source the committed event belongs to).
+func VerifH_C07_syncModeSnapshotComplete() {
+	verifTrace, verifFaults = nil, false
+	jp := verifNewProvider()
+	jp.config.PersistenceMode_ = persistenceModeSync
+	jp.offsetDB = newOffsetDB("offsets.yaml", "offsets.tmp")
+	jp.jobs[1] = verifJob(1, "f", 10)
+	jp.jobs[2] = verifJob(2, "g", 20)
+	last := map[pipeline.SourceID]int64{}
+	seq := map[pipeline.SourceID]uint64{}
+	for i := 0; i < vf.Param("C", 3); i++ {
+		id := pipeline.SourceID(1 + vf.Choose("source", 2))
+		seq[id]++
+		last[id] += 10
+		verifTrace = nil
+		jp.commit(pipeline.VerifNewEvent(id, last[id], seq[id], "s"))
+		var payload []byte
+		renamed := false
+		for _, t := range verifTrace {
+			if t.op == "write" && t.ok {
+				payload = t.data
+			}
+			if t.op == "rename" && t.ok {
+				renamed = true
+			}
+		}
+		if vf.Param("twin", 0) == 1 {
+			vf.Assert(!renamed, "sync-mode-saves-on-every-commit")
+			return
+		}
+		vf.Assert(renamed, "sync-mode-saves-on-every-commit")
+		got, err := jp.offsetDB.parse(string(payload))
+		vf.Assert(err == nil, "snapshot-loads")
+		if err != nil {
+			return
+		}
+		for sid, off := range last {
+			vf.Assert(got[sid] != nil && got[sid].streams["s"] == off, "snapshot-holds-every-source")
+		}
+	}
+	if len(last) == 2 {
+		vf.Reach("two-sources-committed")
 	}
 }
